@@ -44,8 +44,10 @@ pub struct Transcript {
     pub heights: [Vec<Option<u32>>; 2],
 }
 
+/// The operations are inserted in *descending* log order: the store accepts operations in any
+/// order, and a replica's answer must not depend on the order in which its entries were stored.
 async fn sql_fill(store: &SqliteStore, ops: &[Op]) -> Result<(), String> {
-    for op in ops {
+    for op in ops.iter().rev() {
         let permit = store.begin().await.map_err(|e| format!("begin: {e}"))?;
         <SqliteStore as OperationStore<Op, Hash>>::insert_operation(store, &op.hash, op, &op.header.extensions.log)
             .await
